@@ -70,6 +70,53 @@ def scenario_emission(rng, n_ops):
     return ops
 
 
+def scenario_cli_retrieval(tmp, seed):
+    """A complete `taurex -i file.par -R -o out.h5` run (nestle, a handful of live points) under the recorder:
+    every likelihood evaluation, the post-processing at MAP / median, the error propagation over the samples
+    and the stored contributions are forward-model evaluations that must follow the pipeline protocol."""
+    import contextlib
+    import io
+    import sys
+    import taurex.taurex as T
+    from taurex.cache import OpacityCache
+    from taurex.log import disableLogging
+    from .C15 import xsec_dir
+    xdir = xsec_dir(tmp)
+    wl = np.linspace(5.5, 20.0, 9)
+    obs = os.path.join(tmp, 'obs.dat')
+    rs = np.random.RandomState(seed)
+    with open(obs, 'w') as f:
+        for x in wl:
+            f.write('%.6f %.8e %.3e\n' % (x, 0.0105 + 1e-4 * rs.rand(), 5e-5))
+    par = os.path.join(tmp, 'retrieval.par')
+    with open(par, 'w') as f:
+        f.write('\n'.join([
+            '[Global]', 'xsec_path = %s' % xdir,
+            '[Chemistry]', 'chemistry_type = taurex', 'fill_gases = H2, He', 'ratio = 0.17',
+            '    [[H2O]]', '    gas_type = constant', '    mix_ratio = 1e-4',
+            '[Temperature]', 'profile_type = isothermal', 'T = 1200',
+            '[Pressure]', 'profile_type = simple', 'nlayers = 12', 'atm_min_pressure = 1e-1', 'atm_max_pressure = 1e6',
+            '[Planet]', 'planet_type = simple', 'planet_mass = 1.0', 'planet_radius = 1.0',
+            '[Star]', 'star_type = blackbody', 'temperature = 5500', 'radius = 1.0',
+            '[Model]', 'model_type = transmission', '    [[Absorption]]', '    [[Rayleigh]]',
+            '[Observation]', 'observed_spectrum = %s' % obs,
+            '[Optimizer]', 'optimizer = nestle', 'num_live_points = 8', 'tol = 5.0',
+            '[Fitting]', 'planet_radius:fit = True', 'planet_radius:bounds = 0.9, 1.1', 'T:fit = True', 'T:bounds = 800, 1600',
+            'H2O:fit = False', '']))
+    OpacityCache().clear_cache()
+    argv = sys.argv
+    sys.argv = ['taurex', '-i', par, '-R', '-o', os.path.join(tmp, 'out.h5'), '-C']
+    buf = io.StringIO()
+    try:
+        with contextlib.redirect_stdout(buf), contextlib.redirect_stderr(buf):
+            T.main()
+    finally:
+        sys.argv = argv
+        disableLogging()
+        OpacityCache().clear_cache()
+    return ['cli-retrieval']
+
+
 def run(ctx):
     q = ctx.tier == 'quick'
     ctx.bounds = dict(spec='2 grids, <=3 versions, <=5 public calls', traces='harness scenarios + repository tests under the recorder')
@@ -86,6 +133,20 @@ def run(ctx):
             evs = pipeline.stop()
             for e in evs:
                 labels[e['tid']] = 'harness:%d:%s' % (i, ','.join(ops))
+            events.extend(evs)
+        import shutil
+        for j in range(1 if q else 4):
+            tmp = tempfile.mkdtemp(prefix='verifx01_')
+            try:
+                pipeline.start(1000 + j)
+                ops = scenario_cli_retrieval(tmp, ctx.seed + j)
+                evs = pipeline.stop()
+            finally:
+                shutil.rmtree(tmp, ignore_errors=True)
+            if len(evs) < 200:
+                raise Machinery('CLI retrieval recorded only %d pipeline events' % len(evs))
+            for e in evs:
+                labels[e['tid']] = 'cli:retrieval%d' % j
             events.extend(evs)
     finally:
         pipeline.stop()
